@@ -161,6 +161,8 @@ Definition ex_model : emodel :=
 Definition ex_req (sub dom obj act : string) : request :=
   {| rq_ctx := None; rq_vals := [VStr sub; VStr dom; VStr obj; VStr act] |}.
 
+Ltac conj_vm := repeat match goal with |- _ /\ _ => split end; try (vm_compute; reflexivity).
+
 Example C01_nonvacuous :
   (* alice -> manager -> admin in d1: allowed by rule 0, which EnforceEx names *)
   enforce ex_parse ex_oracle ex_model "" (ex_req "alice" "d1" "data1" "read")
@@ -186,8 +188,7 @@ Example C01_nonvacuous :
   enforce ex_parse ex_oracle ex_model ""
     {| rq_ctx := None; rq_vals := [VNum 7; VStr "d1"; VStr "data1"; VStr "read"] |} = error_outcome.
 Proof.
-  repeat split; try (vm_compute; reflexivity).
-  eexists. repeat split; vm_compute; reflexivity.
+  conj_vm. eexists. conj_vm.
 Qed.
 
 (* ---------- the guards are needed ---------- *)
@@ -211,7 +212,7 @@ Lemma C01_error_free_guard_refuted :
     enforce bad_parse ex_oracle bad_model "" rq = error_outcome /\
     perm_spec bad_parse ex_oracle DenyOverride s = true.
 Proof.
-  exists {| rq_ctx := None; rq_vals := [VNum 1] |}. eexists. repeat split; vm_compute; reflexivity.
+  exists {| rq_ctx := None; rq_vals := [VNum 1] |}. eexists. conj_vm.
 Qed.
 
 (* outside the policy loop (a matcher that mentions no policy field, non-empty policy) an
@@ -231,7 +232,7 @@ Lemma C01_explain_policy_free_refuted :
     enforce pf_parse ex_oracle pf_model "" rq = {| decision := true; explain := Some 0; failed := false |} /\
     nth_error (rd_policy s) 0 = Some ["bob"].
 Proof.
-  exists {| rq_ctx := None; rq_vals := [VStr "alice"] |}. eexists. repeat split; vm_compute; reflexivity.
+  exists {| rq_ctx := None; rq_vals := [VStr "alice"] |}. eexists. conj_vm.
 Qed.
 
 (* EnforceWithMatcher re-escapes its argument: for a stored text that is not stable under
@@ -252,5 +253,5 @@ Lemma C01_own_matcher_guard_refuted :
     api_enforce raw_parse ex_oracle raw_model rq = (false, true).
 Proof.
   exists {| rq_ctx := None; rq_vals := [VStr "alice"] |}, "r.sub == p.sub".
-  repeat split; try (vm_compute; reflexivity). discriminate.
+  conj_vm. discriminate.
 Qed.
